@@ -183,6 +183,95 @@ def dominating_tests(fnode, target):
     return out or []
 
 
+def fold(e, env):
+    """constant folding of a small expression under env (name -> constant); returns the constant or the folded node"""
+    if isinstance(e, ast.Constant):
+        return e.value
+    if isinstance(e, ast.Name) and e.id in env:
+        return env[e.id]
+    if isinstance(e, ast.UnaryOp) and isinstance(e.op, ast.USub):
+        v = fold(e.operand, env)
+        return -v if isinstance(v, int) else e
+    if isinstance(e, ast.BinOp) and isinstance(e.op, (ast.Add, ast.Sub)):
+        l, r = fold(e.left, env), fold(e.right, env)
+        if isinstance(l, int) and isinstance(r, int):
+            return l + r if isinstance(e.op, ast.Add) else l - r
+        return e
+    if isinstance(e, ast.Compare) and len(e.ops) == 1:
+        l, r = fold(e.left, env), fold(e.comparators[0], env)
+        if isinstance(l, int) and isinstance(r, int):
+            op = e.ops[0]
+            return {ast.Eq: l == r, ast.NotEq: l != r, ast.Lt: l < r, ast.Gt: l > r, ast.LtE: l <= r,
+                    ast.GtE: l >= r}.get(type(op), None)
+        return e
+    if isinstance(e, ast.IfExp):
+        t = fold(e.test, env)
+        if isinstance(t, bool):
+            return fold(e.body if t else e.orelse, env)
+        return e
+    return e
+
+
+def frontier_rule(fi, d):
+    """reachability sweep of from_automaton for direction == d"""
+    dloops = [l for l in ast.walk(fi.node) if isinstance(l, ast.For) and isinstance(l.target, ast.Name) and
+              l.target.id == 'direction']
+    if len(dloops) != 1:
+        raise AnalysisError('from_automaton: loop over the two directions not found')
+    body = dloops[0].body
+    env = {'direction': d}
+    # layer list: initialised with the start terminal
+    init = [s_ for s_ in body if isinstance(s_, ast.Assign) and isinstance(s_.targets[0], ast.Name) and
+            (pmatch('[set([__AUT.nid_terminal[__T]])]', s_.value) or pmatch('[{__AUT.nid_terminal[__T]}]', s_.value))]
+    if len(init) != 1:
+        raise AnalysisError('from_automaton: initial layer list of the reachability sweep not found')
+    lay = init[0].targets[0].id
+    m = pmatch('[set([__AUT.nid_terminal[__T]])]', init[0].value) or pmatch('[{__AUT.nid_terminal[__T]}]', init[0].value)
+    tnode = ast.parse(m['__T'], mode='eval').body
+    term = fold(tnode, env)
+    sweeps = [l for l in body if isinstance(l, ast.For)]
+    if len(sweeps) != 1:
+        raise AnalysisError('from_automaton: site loop of the reachability sweep not found')
+    sw = sweeps[0]
+    it = fold(sw.iter, env)
+    order = {'range(length)': 'asc', 'reversed(range(length))': 'desc'}.get(norm(it) if isinstance(it, ast.AST) else '')
+    # frontier: the set iterated by the node loop
+    fr_end = None
+    nloops = [l for l in sw.body if isinstance(l, ast.For)]
+    defs = {norm(s_.targets[0]): s_.value for s_ in sw.body if isinstance(s_, ast.Assign) and len(s_.targets) == 1}
+    if len(nloops) == 1:
+        src = nloops[0].iter
+        if isinstance(src, ast.Name) and src.id in defs:
+            src = defs[src.id]
+        if isinstance(src, ast.Subscript) and norm(src.value) == lay:
+            fr_end = fold(src.slice, env)
+    # growth: which statement extends the layer list for this direction
+    grow_end = None
+
+    def grow(stmts):
+        nonlocal grow_end
+        for s_ in stmts:
+            if isinstance(s_, ast.If):
+                t = fold(s_.test, env)
+                if isinstance(t, bool):
+                    grow(s_.body if t else s_.orelse)
+                else:
+                    grow_end = 'undecided'
+            elif isinstance(s_, ast.Expr) and isinstance(s_.value, ast.Call) and norm(s_.value.func) == f'{lay}.append':
+                grow_end = -1
+            elif isinstance(s_, ast.Assign) and norm(s_.targets[0]) == lay:
+                if pmatch(f'[__C] + {lay}', s_.value) is not None:
+                    grow_end = 0
+                elif pmatch(f'{lay} + [__C]', s_.value) is not None:
+                    grow_end = -1
+                else:
+                    grow_end = 'undecided'
+    grow([s_ for s_ in sw.body if not isinstance(s_, ast.For)])
+    want_end = -1 if d == 1 else 0
+    ok = term == 1 - d and order == ('asc' if d == 1 else 'desc') and fr_end == want_end and grow_end == want_end
+    return ok, f'start terminal {term}, site order {order}, frontier index {fr_end!r}, list extended at {grow_end!r}'
+
+
 def rule_R4(chk, repo):
     rid = 'C17.R4'
     chk.rule(rid, 'automaton unrolling (roles, not names; local definitions expanded): the edge added at site i runs '
@@ -285,7 +374,40 @@ def rule_R4(chk, repo):
     chk.ob(rid, where(repo, fi, fi.node), 'reachability in direction d starts at terminal 1-d and follows eids[d] -> nids[d], '
            'visiting sites in ascending (d=1) resp. descending (d=0) order',
            bool(start) and bool(follow) and add_ok and bool(dirs), '', key=f'{rid}|reach-sweep')
-    chk.floor(rid, 11, 11)
+    # frontier / growth agreement, per value of the direction (constant folding of `direction`)
+    for d in (0, 1):
+        ok_f, detail = frontier_rule(fi, d)
+        chk.ob(rid, where(repo, fi, fi.node), f'reachability, direction {d}: the sweep starts at terminal {1 - d}, visits the '
+               f'sites {"ascending" if d == 1 else "descending"}, extends the layer list at the {"end" if d == 1 else "front"} '
+               f'and reads its frontier from that same end', ok_f, detail, key=f'{rid}|reach-frontier|{d}')
+    chk.floor(rid, 13, 13)
+
+
+def rule_R5(chk, repo):
+    rid = 'C17.R5'
+    chk.rule(rid, 'independence of the summands: in the loop over the trees (from_optrees) and over the children of a tree '
+                  'node (_insert_subtree) no local carries a value from an earlier iteration - every name assigned in the '
+                  'loop body is bound on every path of the current iteration before it is read (definite assignment '
+                  'relative to the loop entry), so each tree / child is attached with the ids computed for it')
+    from .. import defassign
+    n = 0
+    for q, it_pat in (('opgraph.OpGraph.from_optrees', None), ('opgraph.OpGraph._insert_subtree', None)):
+        fi = repo.func(q)
+        loops = [l for l in fi.node.body if isinstance(l, ast.For)]
+        if len(loops) != 1:
+            raise AnalysisError(f'{q}: expected one top-level loop, found {len(loops)}')
+        found, nreads = defassign.loop_carried(fi.node, loops[0])
+        if nreads < 5:
+            raise AnalysisError(f'{q}: loop body has only {nreads} reads; the anchored loop changed')
+        bad = {}
+        for node, name, why in found:
+            bad.setdefault(name, node)
+        chk.ob(rid, where(repo, fi, loops[0]), f'{fi.name}: `for {norm(loops[0].target)} in {norm(loops[0].iter)}` has no '
+               f'loop-carried local ({nreads} reads)', not bad,
+               '; '.join(f'`{k}` read at line {v.lineno} may stem from an earlier iteration' for k, v in sorted(bad.items())),
+               key=f'{rid}|{q}')
+        n += 1
+    return n
 
 
 def run(chk, repo, tier):
@@ -298,6 +420,9 @@ def run(chk, repo, tier):
     rule_R2(chk, repo)
     rule_R3(chk, repo)
     rule_R4(chk, repo)
+    rule_R5(chk, repo)
+    from . import kronrule
+    kronrule.analyse(chk, repo, 'C17.R6')
     chk.undecided += ['denotation of the unrolled graph (sum over automaton paths / padded trees)',
                       'dense meaning of chains, trees and graphs under an operator map']
     return ('Static rules over opgraph.py (from_automaton, tree insertion): id typestate, callable dispatch at the '
